@@ -209,6 +209,21 @@ def _r1(ck: Checker, prog: Program):
         if not rows:
             raise AnalysisError(f"{f.qualname}: no returning path")
         rows = [dict(r, value=_drop_empty_splat(r["value"]), conds=[_drop_empty_splat(c) for c in r["conds"]]) for r in rows]
+        # an entry of the candidate index array is an integer, never None: `c[k] is None` cannot hold (a helper that reports
+        # "no candidate" as None and a caller that tests for it)
+        def _elt_is_none(c):
+            if isinstance(c, (sp.Eq, sp.Ne)):
+                for a_, b_ in ((c.lhs, c.rhs), (c.rhs, c.lhs)):
+                    if b_ == NONE and getattr(getattr(a_, "func", None), "__name__", "") == "getitem" and a_.args[0] == C:
+                        return isinstance(c, sp.Eq)
+            return None
+        kept = []
+        for r in rows:
+            verdicts = [_elt_is_none(c) for c in r["conds"]]
+            if any(v is True for v in verdicts):
+                continue
+            kept.append(dict(r, conds=[c for c, v in zip(r["conds"], verdicts) if v is None]))
+        rows = kept
         calls = {a_ for r in rows for x in [r["value"]] + r["conds"] for a_ in sp.preorder_traversal(sp.sympify(x)) if getattr(getattr(a_, "func", None), "__name__", "") == "find_peaks"}
         if calls != {Cs}:
             fp_ok = False
